@@ -382,12 +382,14 @@ def ctor_cases():
 OPS1 = [['clone', True], ['clone', False], ['wod'], ['delete_deriv', 't'], ['delete_deriv', 'q'],
         ['without_deriv', 't'], ['without_deriv', 'q'], ['as_readonly'], ['copy', True], ['copy', False],
         ['broadcast', [2, 3]], ['broadcast', [3]], ['broadcast', [4, 3]], ['broadcast', [1]], ['broadcast', [2, 0]]] + \
-       [['insert_deriv', k, d] for k in ('t', 'q') for d in ('float', 'int', 'nested', 'shape3', 'shape0', 'ro',
+       [['insert_deriv', k, d] for k in ('t', 'q') for d in ('float', 'int', 'nested', 'shape3', 'shape1', 'shape0', 'ro',
                                                             'scalar', 'vector3', 'denom')]
 OPS2A = [['as_readonly'], ['insert_deriv', 'q', 'float'], ['insert_deriv', 't', 'shape0'], ['broadcast', [2, 3]],
          ['delete_deriv', 't'], ['copy', True], ['insert_deriv', 'q', 'shape3']]
+OPS2A1 = [['insert_deriv', 'q', 'shape1']]
 OPS2B = [['clone', True], ['wod'], ['without_deriv', 't'], ['insert_deriv', 'q', 'int'], ['insert_deriv', 't', 'nested'],
-         ['as_readonly'], ['copy', True], ['broadcast', [2, 3]], ['delete_deriv', 'q'], ['insert_deriv', 'q', 'shape3']]
+         ['as_readonly'], ['copy', True], ['broadcast', [2, 3]], ['delete_deriv', 'q'], ['insert_deriv', 'q', 'shape3'],
+         ['insert_deriv', 'q', 'shape1']]
 
 
 def ops_cases(Pm):
@@ -415,6 +417,8 @@ def deriv_arg(tag, r, Pm):
         return sweep.build_receiver(sweep.recv_desc(cls, shape, item, r['kind'], 'F', 't' if c.DERIVS_OK else 'none'), Pm, 3)
     if tag == 'shape3':
         return sweep.build_receiver(sweep.recv_desc(cls, (3,), item, r['kind'], 'mix'), Pm, 3)
+    if tag == 'shape1':
+        return sweep.build_receiver(sweep.recv_desc(cls, (1,), item, r['kind'], 'aF'), Pm, 3)
     if tag == 'shape0':
         return sweep.build_receiver(sweep.recv_desc(cls, (), item, r['kind'], 'F'), Pm, 3)
     if tag == 'ro':
